@@ -485,7 +485,11 @@ func (e *Engine) srcLine(pos token.Pos) string {
 	if p.Line-1 >= len(lines) || p.Line < 1 {
 		return "?"
 	}
-	return strings.Join(strings.Fields(lines[p.Line-1]), " ")
+	line := lines[p.Line-1]
+	if i := strings.Index(line, " //"); i >= 0 && !strings.Contains(line[i:], "\"") {
+		line = line[:i]
+	}
+	return strings.Join(strings.Fields(line), " ")
 }
 
 func mulDec(s string, m int64) string {
@@ -493,4 +497,28 @@ func mulDec(s string, m int64) string {
 	x.SetString(s, 10)
 	x.Mul(x, big.NewInt(m))
 	return x.String()
+}
+
+// lookupType resolves "*pkg.Name" / "pkg.Name" / "Name" against the package and its imports.
+func (e *Engine) lookupType(name string) types.Type {
+	ptr := strings.HasPrefix(name, "*")
+	name = strings.TrimPrefix(name, "*")
+	var obj types.Object
+	if i := strings.Index(name, "."); i >= 0 {
+		for _, imp := range e.pkg.Pkg.Imports() {
+			if imp.Name() == name[:i] {
+				obj = imp.Scope().Lookup(name[i+1:])
+			}
+		}
+	} else {
+		obj = e.pkg.Pkg.Scope().Lookup(name)
+	}
+	tn, ok := obj.(*types.TypeName)
+	if !ok {
+		return nil
+	}
+	if ptr {
+		return types.NewPointer(tn.Type())
+	}
+	return tn.Type()
 }
